@@ -351,3 +351,196 @@ T('fl-inline-cleanup', ['C12', 'C02'],
                     self._decrement_lock_counter()
                     self._thread_lock.release()
                     return False"""))
+
+
+# ---------------------------------------------------------------------------
+# AsyncBackgroundBatcher
+# ---------------------------------------------------------------------------
+B('bat-positional-matching', ['C04'], ['C04-B1'],
+  (A, "                    fut = futs.pop(key)\n", "                    fut = futs.pop(next(iter(futs)))\n"))
+B('bat-no-isinstance', ['C04'], ['C04-B2'],
+  (A, """                    if isinstance(result, Exception):
+                        fut.set_exception(result)
+                    else:
+                        fut.set_result(result)""", """                    fut.set_result(result)"""))
+B('bat-isinstance-inverted', ['C04'], ['C04-B2'],
+  (A, "                    if isinstance(result, Exception):", "                    if not isinstance(result, Exception):"))
+B('bat-no-missing-sweep', ['C04'], ['C04-B4', 'C04-B5'],
+  (A, """            for key, fut in futs.items():
+                fut.set_exception(ValueError(f"Missing result for {key!r}"))""", """            pass"""))
+B('bat-no-fanout', ['C04'], ['C04-B3', 'C04-B5'],
+  (A, """            for fut in futs.values():
+                fut.set_exception(e)
+            return""", """            return"""))
+B('bat-fanout-other-exception', ['C04'], ['C04-B3'],
+  (A, """            for fut in futs.values():
+                fut.set_exception(e)""", """            for fut in futs.values():
+                fut.set_exception(RuntimeError('batch failed'))"""))
+B('bat-answered-stays', ['C04'], ['C04-B6'],
+  (A, "                    fut = futs.pop(key)\n", "                    fut = futs[key]\n"))
+B('bat-dispatcher-awaits-batch', ['C04', 'C09'], ['C04-B8', 'C09-R5'],
+  (A, """            self._daemon_task(  # noqa
+                self._process_batch(tasks),
+                name="async-bg-batcher-process-batch",
+            )""", """            await self._process_batch(tasks)"""))
+B('bat-except-too-narrow', ['C04'], ['C04-B3', 'C04-B5'],
+  (A, "        except Exception as e:\n            logger.debug(\"Exception while processing batch\"", "        except ValueError as e:\n            logger.debug(\"Exception while processing batch\""))
+B('bat-caller-cancels-future', ['C09'], ['C09-R1'],
+  (A, """        try:
+            return await fut
+        finally:
+            if self.retention_timeout > 0:""", """        try:
+            return await fut
+        finally:
+            fut.cancel()
+            if self.retention_timeout > 0:"""))
+B('bat-guard-le', ['C10'], ['C10-R1'],
+  (A, "        while len(tasks) < self.max_batch_size:", "        while len(tasks) <= self.max_batch_size:"))
+B('bat-no-semaphore', ['C10'], ['C10-R3'],
+  (A, "            async with self._semaphore:  # Limit concurrent executions", "            if True:"))
+B('bat-lifo-queue', ['C10'], ['C10-R4'],
+  (A, "        self._queue = aio.Queue()\n        self.max_batch_size", "        self._queue = aio.LifoQueue()\n        self.max_batch_size"))
+B('bat-insert-front', ['C10'], ['C10-R4'],
+  (A, "tasks.append(await aio.wait_for(q.get(), self.batch_timeout))", "tasks.insert(0, await aio.wait_for(q.get(), self.batch_timeout))"))
+B('bat-timeout-constant', ['C10'], ['C10-R5'],
+  (A, "aio.wait_for(q.get(), self.batch_timeout)", "aio.wait_for(q.get(), 0.05)"))
+B('bat-timeout-continues', ['C10'], ['C10-R5'],
+  (A, "            except AioTimeoutError:  # No more tasks coming\n                break", "            except AioTimeoutError:  # No more tasks coming\n                continue"))
+B('bat-bulk-unbounded', ['C10'], ['C10-R1'],
+  (A, "                    self.max_batch_size - len(tasks),\n", "                    self.max_batch_size,\n"))
+B('bat-growth-outside-guard', ['C10'], ['C10-R1'],
+  (A, "        return tasks\n\n    async def _process_batch", "        try:\n            tasks.append(q.get_nowait())\n        except AioQueueEmpty:\n            pass\n        return tasks\n\n    async def _process_batch"))
+B('bat-sem-constant', ['C10'], ['C10-R3'],
+  (A, "aio.Semaphore(value=max_concurrent_batches)", "aio.Semaphore(value=5)"))
+B('bat-empty-batch-on-timeout', ['C10'], ['C10-R2', 'C10-R5'],
+  (A, "            except AioTimeoutError:  # No more tasks coming\n                break", "            except AioTimeoutError:  # No more tasks coming\n                return []"))
+B('bat-args-reversed', ['C10'], ['C10-R4'],
+  (A, "args = [t[:2] for t in tasks]", "args = [t[:2] for t in reversed(tasks)]"))
+B('bat-second-assembler', ['C10'], ['C10-R4'],
+  (A, """        self._loop_task = self._daemon_task(
+            self._processing_loop(),
+            name="async-bg-batcher-processing-loop",
+        )""", """        self._loop_task = self._daemon_task(
+            self._processing_loop(),
+            name="async-bg-batcher-processing-loop",
+        )
+        self._loop_task2 = self._daemon_task(
+            self._processing_loop(),
+            name="async-bg-batcher-processing-loop-2",
+        )"""))
+B('bat-suspend-between-miss-and-store', ['C11'], ['C11-R1'],
+  (A, "        fut = self._retention_cache[key] = self._loop.create_future()", "        await aio.sleep(0)\n        fut = self._retention_cache[key] = self._loop.create_future()"))
+B('bat-evict-on-hit', ['C11'], ['C11-R4'],
+  (A, """        else:
+            return await fut
+
+        fut = self._retention_cache[key]""", """        else:
+            try:
+                return await fut
+            finally:
+                self._retention_cache.pop(key, None)
+
+        fut = self._retention_cache[key]"""))
+B('bat-retention-delay-constant', ['C11'], ['C11-R3'],
+  (A, "                    self.retention_timeout,\n                    self._retention_cache.pop,", "                    1.0,\n                    self._retention_cache.pop,"))
+B('bat-no-evict-on-exception', ['C11'], ['C11-R3'],
+  (A, """        try:
+            return await fut
+        finally:
+            if self.retention_timeout > 0:
+                self._loop.call_later(
+                    self.retention_timeout,
+                    self._retention_cache.pop,
+                    key,
+                )
+            else:
+                del self._retention_cache[key]""", """        result = await fut
+        if self.retention_timeout > 0:
+            self._loop.call_later(
+                self.retention_timeout,
+                self._retention_cache.pop,
+                key,
+            )
+        else:
+            del self._retention_cache[key]
+        return result"""))
+B('bat-key-always-str', ['C11'], ['C11-R5'],
+  (A, "        if key is None:\n            key = str(arg)\n\n        fut:", "        key = str(arg)\n\n        fut:"))
+B('bat-enqueue-on-hit', ['C11'], ['C11-R2'],
+  (A, """        else:
+            return await fut
+
+        fut = self._retention_cache[key]""", """        else:
+            await self._queue.put((key, arg, fut))
+            return await fut
+
+        fut = self._retention_cache[key]"""))
+B('bat-bounded-queue', ['C11'], ['C11-R3'],
+  (A, "        self._queue = aio.Queue()\n        self.max_batch_size", "        self._queue = aio.Queue(maxsize=128)\n        self.max_batch_size"))
+B('bat-never-evict-when-zero', ['C11'], ['C11-R3'],
+  (A, "            else:\n                del self._retention_cache[key]", "            else:\n                pass"))
+B('bat-retention-ignored', ['C11', 'C15'], ['C11-R3', 'C15-R2'],
+  (A, "        self.retention_timeout = retention_timeout\n        self._retention_cache = {}", "        self.retention_timeout = 0.\n        self._retention_cache = {}"))
+B('bat-partial-drops-batch-timeout', ['C15'], ['C15-R1'],
+  (A, "            batch_timeout=batch_timeout,\n            retention_timeout=retention_timeout,\n        )\n\n    batchers", "            retention_timeout=retention_timeout,\n        )\n\n    batchers"))
+B('bat-partial-drops-retention', ['C15'], ['C15-R1'],
+  (A, "            batch_timeout=batch_timeout,\n            retention_timeout=retention_timeout,\n        )\n\n    batchers", "            batch_timeout=batch_timeout,\n        )\n\n    batchers"))
+B('cache-partial-drops-cache', ['C15'], ['C15-R1'],
+  (A, "            threadsafe_async_cache,\n            cache=cache,\n        )", "            threadsafe_async_cache,\n        )"))
+B('buf-partial-constant-timeout', ['C15'], ['C15-R1'],
+  (A, "return partial(buffer_until_timeout, timeout=timeout)", "return partial(buffer_until_timeout, timeout=1)"))
+B('bat-registry-strong', ['C15'], ['C15-R3'],
+  (A, "        = WeakKeyDict()\n", "        = dict()\n"))
+B('bat-wrapper-drops-option', ['C15'], ['C15-R2'],
+  (A, "                batch_timeout=batch_timeout,\n                retention_timeout=retention_timeout,\n            )\n        return await batcher", "                batch_timeout=batch_timeout,\n            )\n        return await batcher"))
+B('buf-ctor-drops-timeout', ['C15'], ['C15-R2'],
+  (A, "return wraps(func)(BufferAsyncCalls(func, timeout=timeout))", "return wraps(func)(BufferAsyncCalls(func))"))
+B('bat-registry-key-thread', ['C15'], ['C15-R3'],
+  (A, "        loop = aio.get_running_loop()\n        try:\n            batcher = batchers[loop]", "        loop = aio.get_event_loop_policy()\n        try:\n            batcher = batchers[loop]"))
+
+T('bat-rename-roles', ['C04', 'C09', 'C10', 'C11', 'C15'],
+  (A, "_retention_cache", "_ret", 'all'), (A, "_semaphore", "_sem", 'all'), (A, "futs", "pending", 'all'))
+T('bat-guard-flipped', ['C10'],
+  (A, "        while len(tasks) < self.max_batch_size:", "        while self.max_batch_size > len(tasks):"))
+T('bat-evict-pop-for-del', ['C11', 'C09'],
+  (A, "            else:\n                del self._retention_cache[key]", "            else:\n                self._retention_cache.pop(key)"))
+T('bat-retention-test-flipped', ['C11'],
+  (A, """            if self.retention_timeout > 0:
+                self._loop.call_later(
+                    self.retention_timeout,
+                    self._retention_cache.pop,
+                    key,
+                )
+            else:
+                del self._retention_cache[key]""", """            if self.retention_timeout <= 0:
+                del self._retention_cache[key]
+            else:
+                self._loop.call_later(
+                    self.retention_timeout,
+                    self._retention_cache.pop,
+                    key,
+                )"""))
+T('bat-fanout-items', ['C04', 'C09'],
+  (A, """            for fut in futs.values():
+                fut.set_exception(e)""", """            for _k, fut in futs.items():
+                fut.set_exception(e)"""))
+T('bat-shielded-and-guarded', ['C04', 'C09', 'C11'],
+  (A, """        else:
+            return await fut
+
+        fut = self._retention_cache[key]""", """        else:
+            return await aio.shield(fut)
+
+        fut = self._retention_cache[key]"""),
+  (A, """        try:
+            return await fut
+        finally:
+            if self.retention_timeout > 0:""", """        try:
+            return await aio.shield(fut)
+        finally:
+            if self.retention_timeout > 0:"""))
+T('bat-create-task-spawn', ['C04', 'C09', 'C10'],
+  (A, """            self._daemon_task(  # noqa
+                self._process_batch(tasks),
+                name="async-bg-batcher-process-batch",
+            )""", """            self._loop.create_task(self._process_batch(tasks))"""))
